@@ -64,12 +64,17 @@ package xpub
 //@   before select#1 assert selwaits(p.sendq)
 //@
 // ---- end generated current-queue contracts ----
+//@
+//@ func (*pipe).sender
+//@   loop 1 invariant evcount("sent") == 0
+//@   ensures evcount("sent") == 0
 // ---- generated AddPipe contracts (tools/gen_addpipe_contracts.py) ----
 //@ func (*socket).AddPipe
 //@   ghost wasClosed = s.closed at call:Lock#1
 //@   ensures wasClosed ==> result == protocol.ErrClosed && !spawned("receiver") && !spawned("sender")
 //@   ensures !wasClosed && isnil(result) ==> spawned("receiver") && spawned("sender") && has(s.pipes, pp.ID())
 //@   ensures !wasClosed ==> isnil(result)
+//@   before go:sender#1 assert fresh(p.sendq) && fresh(p.closeq)
 //@   before call:SetPrivate#1 assert p.p == pp && p.s == s
 //@
 // ---- end generated AddPipe contracts ----
